@@ -199,6 +199,7 @@ def copy_system(s, mats=None, centers_red=None):
 
 
 HISTORIES = ("as_built", "rvec_copy", "ws_dist", "npz_roundtrip", "ws_dist+rvec_copy")
+HISTORIES_NO_DISK = ("as_built", "rvec_copy", "ws_dist", "ws_dist+rvec_copy")
 
 
 def history_variant(rng, system, which=None, workdir=None):
